@@ -60,7 +60,7 @@ def parse_tla_seq(txt):
 
 
 # ---------------------------------------------------------------- history -> script
-def script_of(hist, rng, nmax=24, threads=(1, 2, 4), ienv=None, scale_for_equil=True, pert=None, track=True, matgen=None, symmetric=False):
+def script_of(hist, rng, nmax=24, threads=(1, 2, 4), ienv=None, scale_for_equil=True, pert=None, track=True, matgen=None, symmetric=False, tight=0):
     lines = []
     ps, rl, ms = ienv or (rng.choice([1, 2, 4, 8]), rng.choice([1, 2, 4]), rng.choice([2, 4, 8]))
     lines.append("ienv p1=%d p2=%d p3=%d" % (ps, rl, ms))
@@ -98,7 +98,9 @@ def script_of(hist, rng, nmax=24, threads=(1, 2, 4), ienv=None, scale_for_equil=
             lines.append("gssv P=%d nrhs=%d pad=%d seed=%d" % (rng.choice(threads), rng.choice([0, 1, 2, 3]), rng.choice([0, 0, 3]), rng.randrange(1, 10 ** 6)))
         elif c["call"] == "gssvx":
             lw = {"sys": 0, "user": 16 << 20, "query": -1}[c["lw"]]
-            lines.append("gssvx P=%d fact=%s refact=%d usepr=%d trans=%s lwork=%d nrhs=%d pad=%d padx=%d seed=%d u=%s%s" % (
+            if c["lw"] == "user" and tight:
+                lw = "auto%d" % tight      # a workspace sized from the library's own estimate
+            lines.append("gssvx P=%d fact=%s refact=%d usepr=%d trans=%s lwork=%s nrhs=%d pad=%d padx=%d seed=%d u=%s%s" % (
                 rng.choice(threads), c["fact"], int(c["refact"]), int(c["usepr"]), c["trans"], lw, rng.choice([1, 1, 2, 3]),
                 rng.choice([0, 0, 2]), rng.choice([0, 0, 1]), rng.randrange(1, 10 ** 6),
                 "0.0" if symmetric else rng.choice(["1.0", "1.0", "0.5", "0.1"]), " sym=1" if symmetric else ""))
